@@ -69,6 +69,12 @@ def run_check(d, pid):
     return r.returncode, r.stdout.decode('latin-1')
 
 
+def known_key(line):
+    """the [rule key] part of a KNOWN-FINDING line: what identifies the finding (the prose and the position may move)"""
+    m = re.search(r'\[(R[\d.]+[a-z]? [^\]]+)\]', line)
+    return m.group(1) if m else re.sub(r'src/\S+:\d+', '', line)
+
+
 def do_fire(m, props):
     d, err = make_copy(m)
     if d is None:
@@ -106,7 +112,7 @@ def do_silent(m, props, baseline):
             if props and pid not in props:
                 continue
             rc, out = run_check(d, pid)
-            kn = sorted(re.sub(r'src/\S+:\d+', '', l) for l in out.split('\n') if l.startswith('KNOWN-FINDING'))
+            kn = sorted(known_key(l) for l in out.split('\n') if l.startswith('KNOWN-FINDING'))
             if rc != 0 or kn != baseline[pid]:
                 first = next((l for l in out.split('\n') if re.match(r'^\S+: \[R', l) or 'BROKEN' in l), '')
                 bad.append('%s rc=%d %s' % (pid, rc, first[:160]))
@@ -143,7 +149,7 @@ def main(argv):
         if r.returncode != 0:
             print('unchanged tree: %s exits %d - fix that first' % (pid, r.returncode))
             return 2
-        baseline[pid] = sorted(re.sub(r'src/\S+:\d+', '', l) for l in out.split('\n') if l.startswith('KNOWN-FINDING'))
+        baseline[pid] = sorted(known_key(l) for l in out.split('\n') if l.startswith('KNOWN-FINDING'))
     results = []
     with cf.ThreadPoolExecutor(max_workers=jobs) as ex:
         futs = []
